@@ -19,12 +19,13 @@ const modPath = "github.com/gopher-fleece/gleece/v2"
 
 // World is the resolved program: typed ASTs + SSA of every non-test gleece package.
 type World struct {
-	RepoDir string
-	Fset    *token.FileSet
-	Pkgs    []*packages.Package          // gleece packages analysed (roots)
-	ByPath  map[string]*packages.Package // import path -> package (incl. deps)
-	Prog    *ssa.Program
-	SSAPkg  map[string]*ssa.Package
+	analysedShort map[string]bool
+	RepoDir       string
+	Fset          *token.FileSet
+	Pkgs          []*packages.Package          // gleece packages analysed (roots)
+	ByPath        map[string]*packages.Package // import path -> package (incl. deps)
+	Prog          *ssa.Program
+	SSAPkg        map[string]*ssa.Package
 
 	// FuncDecls of gleece, keyed by short name (see shortFuncName)
 	Funcs map[string]*FuncInfo
